@@ -49,6 +49,10 @@ def templates(tier, seed=0):
     ts.append({'name': 'dot-vs-bracket', 'src': 'o := {"k": @h10@}\nif @b0@ {\n    o.k = @h11@\n} else {\n    o["k"] = @h11@\n}\nif @b1@ {\n    o.k += 1\n} else {\n    o["k"] += 1\n}\nprint(o.k)\nprint(o["k"])\nif @b2@ {\n    print(o.j)\n} else {\n    print(o["j"])\n}\n'})
     # new key added exactly when absent; other properties unchanged
     ts.append({'name': 'frame', 'src': 'o := {"a": @h10@, "b": @h11@}\nk := "a"\nif @b0@ {\n    k = "c"\n}\no[k] = @h12@\nprint(o)\n'})
+    # a lone spread copies; the copy is independent
+    ts.append({'name': 'spread-copy', 'src': 'base := {"a": @h10@, "b": @h11@}\ncopy := {base..}\nprint(copy === base)\ncopy["c"] = @h12@\ncopy.a += 10\nprint(base)\nprint(copy)\nc2 := {base.., "a": 0}\nc2.b = 1\nprint(base)\nempty := {}\ne2 := {empty..}\ne2.x = 1\nprint(empty)\nprint(e2 === empty)\n'})
+    # key and value expressions that read the object being written
+    ts.append({'name': 'self-key', 'src': 'o := {"cur": "a", "a": @h10@, "b": 2}\nif @b0@ {\n    o[o.cur] = @h11@\n} else {\n    o[o["cur"]] += 1\n}\no[o.cur + "2"] = o.a\nfn key() {\n    return o.cur\n}\no[key()] += 1\no.b = o.a + o["b"]\no[o.cur] = o\nprint(o.b)\nprint(o.a2)\nprint(o.a === o)\n'})
     # computed names must be strings
     ts.append({'name': 'computed-name', 'src': 'n := "x"\nif @b0@ {\n    n = 1\n}\nprint({n: 2})\n'})
     return ts
